@@ -94,6 +94,13 @@ class BaseCtx:
         """Python value of a (possibly symbolic) solver variable; forks in sym mode."""
         return x
 
+    def untraced(self):
+        """S6: context manager for set-up code whose inputs are all concrete on this path
+        (runs natively in sym mode; a no-op otherwise)."""
+        import contextlib
+
+        return contextlib.nullcontext()
+
 
 class ReplayCtx(BaseCtx):
     mode = "replay"
